@@ -486,6 +486,12 @@ func (x *FnExec) typeInv(v Val, t types.Type, allocBound *Term) Term {
 			cs = append(cs, Ge(v.T, "0"))
 			if allocBound != nil {
 				cs = append(cs, Lt(v.T, *allocBound))
+				// the whole referent lies in pre-existing memory, not just its first cell
+				if p, ok := u.(*types.Pointer); ok {
+					if sz := x.mem.Size(p.Elem()); sz > 1 {
+						cs = append(cs, Le(Add(v.T, Lit(int64(sz))), *allocBound))
+					}
+				}
 			}
 		case *types.Slice:
 			sz := x.mem.Size(u.Elem())
